@@ -1,13 +1,124 @@
-"""Runner: python -m vf.run <ID> [--tier quick|thorough] [--replay FILE]."""
+"""Runner: python -m vf.run <ID> [--tier quick|thorough] [--replay FILE].
+
+The main pass runs every task of the check in this process tree. After it, a slice of the same tasks is run again
+in one child interpreter per *environment axis* (core.AXES): 'opt' (python -O: assert statements removed) and
+'debuglog' (the library's loggers enabled at DEBUG). The properties say nothing that would make them depend on
+either, so a case that passes in the main pass and fails on an axis is a violation like any other; its signature
+carries '@<axis>' and its replay file re-creates the axis.
+"""
 import argparse
 import importlib
 import json
 import os
+import pickle
+import subprocess
 import sys
+import tempfile
 import time
 import traceback
 
 from vf import core
+
+
+def axis_stride(tier):
+    try:
+        return max(1, int(os.environ.get('VERIF_AXIS_STRIDE', '') or (4 if tier == 'quick' else 2)))
+    except ValueError:
+        return 4
+
+
+def worker_sequence(mod, prop, seq):
+    """re-run, in a fresh forked process, every task the worker that owned seq['task_index'] had run up to and
+    including it (static partition: the k-th selected task belongs to worker k mod n)"""
+    if not hasattr(mod, 'tasks'):
+        return None
+    ts = mod.tasks(seq['tier'], seq['seed'])
+    sel = core.selected(len(ts), seq.get('select') or (1, 0))
+    n = min(core.NWORKERS, max(1, len(sel)))
+    if seq['task_index'] not in sel:
+        return None
+    p = sel.index(seq['task_index'])
+    idxs = sel[p % n:p + 1:n]
+    fn = core.safe_task(mod.run_task, prop, seq['tier'], seq['seed'])
+
+    def run_all(_):
+        acc = core.Acc()
+        for i in idxs:
+            acc.merge(fn((i, ts[i])))
+        return acc
+    return core.pmap(run_all, [0, 1], nworkers=2)[0]
+
+
+def replay_in_process(mod, prop, case):
+    if isinstance(case, dict) and case.get('worker_sequence'):
+        return worker_sequence(mod, prop, case)
+    if isinstance(case, dict) and 'task_index' in case and hasattr(mod, 'tasks'):
+        ts = mod.tasks(case['tier'], case['seed'])
+        if case.get('select'):
+            core.SELECT = tuple(case['select'])
+        return core.safe_task(mod.run_task, prop, case['tier'], case['seed'])((case['task_index'], ts[case['task_index']]))
+    return mod.replay_case(case)
+
+
+def suffixed(acc, axis):
+    """violations of a child run, renamed '<sig>@<axis>' with cases that name the axis"""
+    out = core.Acc()
+    out.evaluations = acc.evaluations
+    out.counters = dict(acc.counters)
+    for sig, (n, dets) in acc.violations.items():
+        nd = []
+        for d in dets:
+            d = dict(d, case={'axis': axis, 'case': d['case']},
+                     note=((d.get('note') or '') + ' [only when %s]' % AXIS_TEXT[axis]).strip())
+            if d.get('_task'):
+                d['_task'] = {'axis': axis, 'case': d['_task']}
+            nd.append(d)
+        out.violations[sig + '@' + axis] = [n, nd]
+    return out
+
+
+AXIS_TEXT = {'opt': 'the interpreter runs with -O (assert statements removed)',
+             'debuglog': "the library's loggers are enabled at DEBUG level"}
+
+
+def axis_child(prop, tier, seed, axis, case=None):
+    """run this check (or one case of it) in a child interpreter on the given axis -> Acc with suffixed sigs"""
+    fd, out = tempfile.mkstemp(prefix='vf-axis-', suffix='.pkl')
+    os.close(fd)
+    casefile = None
+    try:
+        cmd = [sys.executable] + (['-O'] if axis == 'opt' else []) + \
+              ['-m', 'vf.run', prop, '--tier', tier, '--axis', axis, '--axis-out', out]
+        if case is not None:
+            fd, casefile = tempfile.mkstemp(prefix='vf-axis-', suffix='.json')
+            with os.fdopen(fd, 'w') as f:
+                json.dump(case, f)
+            cmd += ['--axis-case', casefile]
+        env = dict(os.environ, VERIF_AXIS=axis, VERIF_SEED=str(seed))
+        r = subprocess.run(cmd, env=env, stdout=subprocess.PIPE, stderr=subprocess.STDOUT, text=True)
+        if r.returncode != 0 or not os.path.getsize(out):
+            raise core.Broken('the %s-axis child process failed (exit %s):\n%s' % (axis, r.returncode,
+                                                                                  (r.stdout or '')[-3000:]))
+        with open(out, 'rb') as f:
+            acc = pickle.load(f)
+        return suffixed(acc, axis)
+    finally:
+        for p in (out, casefile):
+            if p and os.path.exists(p):
+                os.unlink(p)
+
+
+def main_pass(mod, prop, tier, seed):
+    if hasattr(mod, 'run'):
+        acc, desc, extra = mod.run(tier, seed)
+        return acc, desc, dict(extra or {})
+    desc = mod.describe(tier, seed)
+    tasks = mod.tasks(tier, seed)
+    sel = core.selected(len(tasks))
+    acc = core.Acc()
+    for r in core.pmap(core.safe_task(mod.run_task, prop, tier, seed), [(i, tasks[i]) for i in sel]):
+        acc.merge(r)
+    return acc, desc, {'tasks': len(tasks), 'tasks_run': len(sel)}
 
 
 def main(argv=None):
@@ -15,6 +126,9 @@ def main(argv=None):
     ap.add_argument('prop')
     ap.add_argument('--tier', default=os.environ.get('VERIF_TIER', 'quick'), choices=['quick', 'thorough'])
     ap.add_argument('--replay')
+    ap.add_argument('--axis', default='')
+    ap.add_argument('--axis-out')
+    ap.add_argument('--axis-case')
     args = ap.parse_args(argv)
     try:
         seed = int(os.environ.get('VERIF_SEED', '0') or 0)
@@ -23,80 +137,103 @@ def main(argv=None):
     prop = args.prop.upper()
     t0 = time.time()
     core._TIER['tier'] = args.tier
+    if args.axis:
+        if core.AXIS != args.axis or (args.axis == 'opt') != (not __debug__):
+            print('BROKEN-CHECK property=%s: axis %r not in force in this interpreter' % (prop, args.axis))
+            return 2
     core.quiet_library()
     try:
         mod = importlib.import_module('vf.checks.' + prop.lower())
         import cardutil
         if not os.path.abspath(cardutil.__file__).startswith(os.path.abspath(core.REPO) + os.sep):
             raise core.Broken('cardutil imported from %s, not from %s' % (cardutil.__file__, core.REPO))
+
+        if args.axis and args.axis_out:
+            # child of a run on an environment axis: a slice of the tasks (or one case), result pickled for the parent
+            try:
+                if args.axis_case:
+                    acc = replay_in_process(mod, prop, json.load(open(args.axis_case)))
+                    if acc is None:
+                        acc = core.Acc()
+                else:
+                    core.SELECT = (axis_stride(args.tier), seed % axis_stride(args.tier))
+                    acc, _, _ = main_pass(mod, prop, args.tier, seed)
+            except core.TaskHang as ex:
+                acc = core.Acc()
+                acc.viol(prop.lower() + '.no_termination', {'whole_axis_run': True}, str(ex),
+                         'every task completes', 'a task outside the per-task wrapper ran into the CPU watchdog')
+            with open(args.axis_out, 'wb') as f:
+                pickle.dump(acc, f)
+            return 0
+
         if args.replay:
             import signal
             rec = json.load(open(args.replay))
             case = rec.get('case')
+            if isinstance(case, dict) and case.get('axis') and not args.axis:
+                # the case failed on an environment axis: re-create it in a fresh interpreter
+                axis = case['axis']
+                cmd = [sys.executable] + (['-O'] if axis == 'opt' else []) + \
+                      ['-m', 'vf.run', prop, '--tier', args.tier, '--axis', axis, '--replay', args.replay]
+                sys.stdout.flush()
+                os.execve(sys.executable, cmd, dict(os.environ, VERIF_AXIS=axis))
+            if isinstance(case, dict) and case.get('axis'):
+                inner = case['case']
+                if case.get('worker_sequence'):
+                    inner = dict(inner, worker_sequence=True)
+                case = inner
             signal.signal(signal.SIGPROF, core._on_prof)
             signal.setitimer(signal.ITIMER_PROF, core.task_cpu_limit(args.tier))
-            if case is None:
+            if case is None or (isinstance(case, dict) and case.get('whole_axis_run')):
                 print('this replay file records a whole-check time-out; re-run: %s' % rec.get('replay_cmd'))
                 return 1
-            if isinstance(case, dict) and 'task_index' in case and hasattr(mod, 'tasks'):
-                ts = mod.tasks(case['tier'], case['seed'])
-                fn = core.safe_task(mod.run_task, prop, case['tier'], case['seed'])
-                if case.get('worker_sequence'):
-                    n = min(core.NWORKERS, max(1, len(ts)))
-                    acc = core.Acc()
-                    for i in range(case['task_index'] % n, case['task_index'] + 1, n):
-                        acc.merge(fn((i, ts[i])))
-                else:
-                    acc = fn((case['task_index'], ts[case['task_index']]))
-            else:
-                acc = mod.replay_case(case)
-            if acc.violations:
+            acc = replay_in_process(mod, prop, case)
+            if acc is not None and acc.violations:
                 for sig, (n, det) in sorted(acc.violations.items()):
                     print('VIOLATION property=%s replay=%s' % (prop, args.replay))
                     print('  sig=%s observed=%s expected=%s note=%s' % (
-                        sig, det[0]['observed'], det[0]['expected'], det[0]['note']))
+                        sig + ('@' + args.axis if args.axis else ''), det[0]['observed'], det[0]['expected'],
+                        det[0]['note']))
                 return 1
             print('replay: case passes on the current tree')
             return 0
+
         if hasattr(mod, 'selfcheck'):
             mod.selfcheck()
-        if hasattr(mod, 'run'):
-            acc, desc, extra = mod.run(args.tier, seed)
-        else:
-            desc = mod.describe(args.tier, seed)
-            tasks = mod.tasks(args.tier, seed)
-            acc = core.Acc()
-            for r in core.pmap(core.safe_task(mod.run_task, prop, args.tier, seed), list(enumerate(tasks))):
-                acc.merge(r)
-            extra = {'tasks': len(tasks)}
+        acc, desc, extra = main_pass(mod, prop, args.tier, seed)
 
-        def worker_sequence(seq):
-            """re-run, in a fresh forked process, every task the worker that owned seq['task_index'] had run up to
-            and including it (static partition: task i belongs to worker i mod n)"""
-            if not hasattr(mod, 'tasks'):
-                return None
-            ts = mod.tasks(seq['tier'], seq['seed'])
-            n = min(core.NWORKERS, max(1, len(ts)))
-            idxs = list(range(seq['task_index'] % n, seq['task_index'] + 1, n))
-            fn = core.safe_task(mod.run_task, prop, seq['tier'], seq['seed'])
-
-            def run_all(_):
-                acc = core.Acc()
-                for i in idxs:
-                    acc.merge(fn((i, ts[i])))
-                return acc
-            return core.pmap(run_all, [0, 1], nworkers=2)[0]
+        # environment axes: a slice of the same tasks in a child interpreter per axis
+        axes = {}
+        if not os.environ.get('VERIF_NO_AXES'):
+            stride = axis_stride(args.tier)
+            for axis in core.AXES:
+                ta = time.time()
+                child = axis_child(prop, args.tier, seed, axis)
+                axes[axis] = {'what': AXIS_TEXT[axis], 'evaluations': child.evaluations,
+                              'task_slice': 'every task' if hasattr(mod, 'run') and not hasattr(mod, 'tasks')
+                              else 'tasks i with i mod %d == %d' % (stride, seed % stride),
+                              'violations': sum(v[0] for v in child.violations.values()),
+                              'wall_s': round(time.time() - ta, 1)}
+                acc.count('axis_%s_evaluations' % axis, child.evaluations)
+                for sig, v in child.violations.items():
+                    acc.violations[sig] = v
+            extra['environment_axes'] = axes
 
         def replay(case):
-            if isinstance(case, dict) and case.get('worker_sequence'):
-                return worker_sequence(case)
-            if isinstance(case, dict) and 'task_index' in case and hasattr(mod, 'tasks'):
-                ts = mod.tasks(case['tier'], case['seed'])
-                return core.safe_task(mod.run_task, prop, case['tier'], case['seed'])(
-                    (case['task_index'], ts[case['task_index']]))
-            return mod.replay_case(case)
+            if isinstance(case, dict) and case.get('axis'):
+                inner = case['case']
+                if case.get('worker_sequence'):
+                    inner = dict(inner, worker_sequence=True)
+                tier = inner.get('tier', args.tier) if isinstance(inner, dict) else args.tier
+                return axis_child(prop, tier, seed, case['axis'], case=inner)
+            return replay_in_process(mod, prop, case)
+
+        def sequence(seq):
+            if isinstance(seq, dict) and seq.get('axis'):
+                return replay(dict(seq, worker_sequence=True))
+            return worker_sequence(mod, prop, seq)
         return core.finish(mod, args.tier, seed, acc, desc, t0, replay_fn=replay, extra_cov=extra,
-                           sequence_fn=worker_sequence)
+                           sequence_fn=sequence)
     except core.TaskTimeout:
         print('VIOLATION property=%s replay=%s' % (prop, args.replay))
         print('  sig=%s.no_termination observed=the replayed case did not finish within the CPU limit' % prop.lower())
